@@ -336,7 +336,7 @@ func genC05Program(g *sim.Stream, tier string) string {
 		b.WriteString("os.write_file(\"/data/f.txt\", \"to-data\")\nos.write_file(\"/data/deep/g.txt\", \"to-deep\")\nos.write_file(\"/top.txt\", \"to-root\")\n")
 		b.WriteString("emits(string(os.read_file(\"/data/seed.txt\")))\nemits(string(os.read_file(\"/data/deep/seed.txt\")))\nemits(string(os.read_file(\"/seed.txt\")))\n")
 		b.WriteString("emits(string(try(func() { return os.read_dir(\"/data\").map(func(e) { return e.name }) }, func(e) { return string(e) })))\n")
-		b.WriteString("emits(string(sorted(os.environ())))\n")
+		b.WriteString("emits(string(sorted(os.environ())))\nemits(string(os.environ()))\n")
 		b.WriteString("emits(string(try(func() { return os.read_dir(\"/data/dir\").map(func(e) { return e.name }) }, func(e) { return string(e) })))\n")
 		b.WriteString("emits(string(try(func() { return os.read_dir(\"/dir\").map(func(e) { return e.name }) }, func(e) { return string(e) })))\n")
 	}
